@@ -8,7 +8,8 @@ def run(ctx):
     g.network(ctx, "C06-")
     return ctx.finish(
         rule=g.RULE + " Oracle C06 (modes live, sync; runs not cut by the event cap): every honest participant decides, within 40 "
-                      "rounds of the round current at stabilisation; synchronous unanimous runs decide in round 0.",
+                      "rounds of the round current at stabilisation — within 6 when the run's adversary never acted (`byz=0` "
+                      "on the end line: crash-silent members only); synchronous unanimous runs decide in round 0.",
         trusted_base=g.TRUSTED,
         assumptions=["real-time delivery and hash-dependent ticket order are not carried by any executable model: the round "
                      "bound is validated on runs, not proved"],
